@@ -136,7 +136,11 @@ impl RngCore for ScriptRng {
                 }
                 x => {
                     if let (None, Some(w)) = (&x, s.fallback) {
-                        return w as u32;
+                        // unscripted extra draw: continue with a pseudo-random stream (a constant word
+                        // could be rejected forever by rand's rejection sampling)
+                        let nw = w.wrapping_add(0x9e37_79b9_7f4a_7c15);
+                        s.fallback = Some(nw);
+                        return (mix64(nw) >> 32) as u32;
                     }
                     s.mismatch.get_or_insert(format!("next_u32 got {:?}", x));
                     0
@@ -159,7 +163,9 @@ impl RngCore for ScriptRng {
                 Some(Intent::Raw(w)) => w,
                 x => {
                     if let (None, Some(w)) = (&x, s.fallback) {
-                        return w;
+                        let nw = w.wrapping_add(0x9e37_79b9_7f4a_7c15);
+                        s.fallback = Some(nw);
+                        return mix64(nw);
                     }
                     s.mismatch.get_or_insert(format!("next_u64 got {:?}", x));
                     0
